@@ -188,3 +188,47 @@ def namespace_entry_points(ctx, rule):
         ctx.fail(rule, f, f.node, "entry-point model: %s (%d disagreeing case(s))" % (problems[0], len(problems)), key=f.qualname + "::entry-point-model")
     else:
         ctx.ok(rule, f, f.node, "entry-point model: the subset given (None included) reaches the serializer unchanged and its result is returned unchanged (%d cases)" % n)
+
+
+def deserialize_entry_point(ctx, rule):
+    """Parameters.deserialize_parameters interpreted TWICE in a row with the same arguments on one class (whatever state
+    the entry point keeps between calls is kept): each call must hand back what the serializer decoded for THAT call --
+    the serializer is consulted every time and no mutable value of the second result is an object the first result
+    holds too (a rebuilt object edits its List / Dict values in place; a remembered payload would hand the edited
+    containers to the next rebuild)."""
+    from engine.absint import Interp, Obj, Unsupported
+    from engine.loader import AnalysisError
+    P_ = "param.parameterized."
+    f = ctx.repo.func(P_ + "Parameters.deserialize_parameters")
+    serializer = Obj("json_serializer")
+    target = Obj("Cls")
+    calls, results = [], []
+    state = {"BATCH_WATCH": False, "TRIGGER": False, "events": [], "watchers": []}
+    target.attrs["_param__private"] = Obj("class_private", parameters_state=state)
+
+    def hook(fn, args, kwargs):
+        if fn.endswith(".deserialize_parameters") and not fn.startswith("self_."):
+            calls.append((args, kwargs))
+            return {"items": [Obj("decoded_element")], "mapping": {"k": Obj("decoded_value")}, "number": 3}
+        if fn in ("tuple", "list") and args and isinstance(args[0], (list, tuple)):
+            return tuple(args[0]) if fn == "tuple" else list(args[0])
+        return NotImplemented
+    ns = Obj("ns", self_or_cls=target, self=None, cls=target)
+    it = Interp(ctx.hier, dyn=P_ + "Parameters", inline=lambda m: False, call_hook=hook, globals={"Parameter": Obj("Parameter", _serializers={"json": serializer})})
+    for k in (1, 2):
+        try:
+            outs = it.run_all(f, {"self_": ns, "serialization": "the_same_json_text", "subset": ["items", "mapping"], "mode": "json"})
+        except Unsupported as e:
+            raise AnalysisError("%s: absint cannot interpret Parameters.deserialize_parameters: %s" % (rule, e))
+        if len(outs) != 1 or outs[0].imprecise or outs[0].kind != "return" or not isinstance(outs[0].value, dict):
+            raise AnalysisError("%s: Parameters.deserialize_parameters is not interpretable precisely (%s)" % (rule, outs[0].notes[:2] if outs else "no outcome"))
+        results.append(outs[0].value)
+    ctx.abstract_cases += 2
+    shared = [k for k in results[0] if isinstance(results[0][k], (list, dict, set)) and results[1].get(k) is results[0][k]]
+    if len(calls) != 2 or shared:
+        ctx.fail(rule, f, f.node, "entry-point model: two deserialize_parameters calls with the same text consult the serializer %d time(s)%s: the second rebuild is handed the containers of the "
+                                  "first -- once the first rebuilt object edited its list in place, the same JSON no longer rebuilds the saved state" % (
+                                      len(calls), "; the mutable values %s of both results are the same objects" % shared if shared else ""),
+                 key=f.qualname + "::deserialize-entry-point", input="a = C(**C.param.deserialize_parameters(s)); a.items.append(99); b = C(**C.param.deserialize_parameters(s)) -> b.items ends with 99")
+    else:
+        ctx.ok(rule, f, f.node, "entry-point model: every deserialize_parameters call decodes afresh; no mutable value is shared between the results of two calls")
